@@ -1,6 +1,8 @@
 import TextxVerif.Wire
 import TextxVerif.Resolve
 import TextxVerif.ResolveQuery
+import TextxVerif.ResolveOrder
+import TextxVerif.RefList
 /-! Driver for the resolver loop model (C08, C09).
 ops:
   {"op":"loop","refs":[id…],"deps":[[id,[id…]]…]}  → {"pending":[…],"seq":[…]}
@@ -10,6 +12,14 @@ ops:
   {"op":"resolveq","files":[[[id,obj,attr]…]…],"waits":[[id,[WAIT…]]…],"lists":[…]}   (C09)
         WAIT = [0,id] (attribute value) | [1,file,obj,attr] | [2,file,obj] (needs_to_be_resolved)
         → {"pending":[…],"seq":[…],"lists":[[id…]…]}   providers that ask the resolver: loopQ
+  both `resolve` and `resolveq` also answer
+        "keyed": the list attributes once more, computed by the Python-level model of C08
+                 (`RefList.run` = `_list_ref_positions` + `bisect` + `list.insert`) fed with the loop's sequence;
+        "order_ok": `validOrder` of the loop's own sequence (literal "resolves given the ones before it");
+  and accept the optional fields
+        "obs_seq":[id…]  a resolution sequence observed on the implementation → "obs_order_ok": `validOrder` of it
+        "files":[[id…]…] (`resolve` only) the references file by file → the loop is run as `loopFiles` (every file
+                 its own pending list, stepped in turn); "pending_files" = what stays pending per file
 -/
 open Lean Wire Resolve
 
@@ -76,6 +86,29 @@ def waitsOf (tbl : List (Nat × List Wait)) (r : Nat) : List Wait :=
   | some (_, ws) => ws
   | none => []
 
+/-- the list attributes as the keyed Python-level model sees them: attribute number `j` is the key `(j, 0)` -/
+def keyedLists (attrs : List (List LRef)) (seq : List Nat) : List (List Nat) :=
+  let tab : List (Nat × RefList.KRef) :=
+    (attrs.zipIdx.map fun (L, j) => L.map fun l => (l.id, ({ key := (j, 0), pos := l.pos, tgt := l.tgt } : RefList.KRef))).flatten
+  let kseq := seq.filterMap fun r => (tab.find? (·.1 = r)).map (·.2)
+  let st := RefList.run kseq
+  (List.range attrs.length).map fun j => st.values (j, 0)
+
+/-- optional observed sequence → its `validOrder` verdict (`none` = the field is there but undecodable) -/
+def obsOrder (P : Provider) (j : Json) : Option (List (String × Json)) :=
+  match (j.getObjVal? "obs_seq").toOption with
+  | none => some []
+  | some v => (asNatList? v).map fun σ => [("obs_order_ok", toJson (validOrder P σ))]
+
+def withObs (P : Provider) (j : Json) (fields : List (String × Json)) : Json :=
+  match obsOrder P j with
+  | some extra => Json.mkObj (fields ++ extra)
+  | none => badOp
+
+def parseFiles (j : Json) : Option (List (List Nat)) := do
+  let a ← getArr? j "files"
+  a.toList.mapM asNatList?
+
 def handle (j : Json) : Json :=
   match getStr? j "op" with
   | some "loop" =>
@@ -87,18 +120,34 @@ def handle (j : Json) : Json :=
   | some "resolve" =>
     match getNatList? j "refs", (getArr? j "deps").bind parseDeps, (getArr? j "lists").bind parseAttrs with
     | some refs, some tbl, some attrs =>
-      let (p, res) := loop (tableProvider tbl) (refs.length + 1) refs []
-      let seq := res.reverse
-      Json.mkObj [("pending", toJson p), ("seq", toJson seq),
-                  ("lists", toJson (attrs.map fun L => (attrAfter L seq).map (·.tgt)))]
+      let P := tableProvider tbl
+      match (j.getObjVal? "files").toOption with
+      | none =>
+        let (p, res) := loop P (refs.length + 1) refs []
+        let seq := res.reverse
+        withObs P j ([("pending", toJson p), ("seq", toJson seq),
+                    ("lists", toJson (attrs.map fun L => (attrAfter L seq).map (·.tgt))),
+                    ("keyed", toJson (keyedLists attrs seq)), ("order_ok", toJson (validOrder P seq))])
+      | some _ =>
+        match parseFiles j with
+        | some files =>
+          if files.flatten ≠ refs then badOp else
+          let (ps, res) := loopFiles P (refs.length + 1) files []
+          let seq := res.reverse
+          withObs P j ([("pending", toJson ps.flatten), ("pending_files", toJson ps), ("seq", toJson seq),
+                      ("lists", toJson (attrs.map fun L => (attrAfter L seq).map (·.tgt))),
+                      ("keyed", toJson (keyedLists attrs seq)), ("order_ok", toJson (validOrder P seq))])
+        | none => badOp
     | _, _, _ => badOp
   | some "resolveq" =>
     match (getArr? j "files").bind parseCRefs, (getArr? j "waits").bind parseWaits, (getArr? j "lists").bind parseAttrs with
     | some files, some tbl, some attrs =>
       let (fs, res) := loopQ (waitsOf tbl) (pendingCount files + 1) files []
       let seq := res.reverse
-      Json.mkObj [("pending", toJson (idsOf fs)), ("seq", toJson seq),
-                  ("lists", toJson (attrs.map fun L => (attrAfter L seq).map (·.tgt)))]
+      let P := specP (waitsOf tbl) files
+      withObs P j ([("pending", toJson (idsOf fs)), ("seq", toJson seq),
+                  ("lists", toJson (attrs.map fun L => (attrAfter L seq).map (·.tgt))),
+                  ("keyed", toJson (keyedLists attrs seq)), ("order_ok", toJson (validOrder P seq))])
     | _, _, _ => badOp
   | some "list" =>
     match (getArr? j "seq").bind parseLRefs with
